@@ -69,12 +69,14 @@ PROPS = {
     },
     "C03": {
         "gen": ["Numeric"],
-        "thm_module": "NutsModel.Thm.C03",
+        "thm_module": "NutsModel.Thm.C03Window",
         "namespace": "NutsModel.C03",
         "theorems": [
             "draw_no_panic", "depth_le_maxdepth", "steps_bounds", "index_bounds", "draw_is_visited",
             "maxdepth_flag_iff", "at_least_one_step", "draw_outcomes", "allOut_iff", "nLeap_eq_count",
             "buildOther_spec", "extend_spec", "drawLoop_spec", "draw_spec",
+            "window_le_maxdepth", "window_ge_one", "window_reaches_target", "window_min_le_max", "window_min_spec",
+            "effective_maxdepth_le", "le_two_pow_log2Ceil", "two_pow_log2Floor_le",
         ],
         "harness": ["C01", "C03"],
         "level": "proof",
@@ -83,11 +85,14 @@ PROPS = {
                  "(Diag/LowRank NUTS, Diag MCLMC; Euclidean and ExactNormal; dimensions 1..100; maxdepth 1..10; mindepth; "
                  "target_integration_time; densities Gaussian / badly scaled / Student-t / quartic; periodic recoverable faults): every "
                  "returned position is looked up in the density evaluation log, logp and gradient statistics must equal the "
-                 "logged values bit-exactly, and depth / n_steps / index inequalities are checked on every draw. "
-                 "distinct_nontrivial = draws with depth >= 2 that moved (NUTS) + MCLMC draws + non-trivial mock trajectories."),
+                 "logged values bit-exactly, and depth / n_steps / index inequalities are checked on every draw; (c) the depth window derived "
+                 "from target_integration_time: the real nuts::draw on flat mock orbits that never / always U-turn, target times below one step, "
+                 "at 0.999/1/1.001 x powers of two of the step, and far beyond 2^maxdepth steps; the reached depths must equal those of the tree "
+                 "model run with Model.depthWindow (and never exceed maxdepth, never be 0 when maxdepth >= 1). "
+                 "distinct_nontrivial = draws with depth >= 2 that moved (NUTS) + MCLMC draws + non-trivial mock trajectories + window cases not capped by maxdepth."),
         "trusted": [
             "C03: proved for Model/Tree.lean (every orbit, every option set with extra_doublings = 0, every random outcome): no assert of merge_into can fire, depth <= maxdepth, 2^depth-1 <= leapfrogs <= 2^(depth+1)-1, |index| <= 2^depth-1, the draw is the start or the destination of a successful leapfrog of this trajectory, maxdepth flag implies depth = maxdepth and no divergence, >= 1 leapfrog when maxdepth >= 1",
-            "C03: not modelled: StatePool recycling (unsafe ManuallyDrop + Rc) -- absence of aliasing is only observed through the bit-exact position/logp/gradient consistency of real runs; the depth window derived from target_integration_time is checked on real runs only; 'stops exactly when' is carried by the bit-exact correspondence of the tree model, its full formal statement (least depth) is not proved",
+            "C03: not modelled: StatePool recycling (unsafe ManuallyDrop + Rc) -- absence of aliasing is only observed through the bit-exact position/logp/gradient consistency of real runs; the depth window derived from target_integration_time is a hand model over the naturals (Model/DepthWindow.lean: proved never to exceed options.maxdepth, to keep one doubling, to reach the target unless capped), tied through mock orbits to the real draw; its float front end (division, ceil, log2 of an integer below 2^53) is replayed at Float; 'stops exactly when' is carried by the bit-exact correspondence of the tree model, its full formal statement (least depth) is not proved",
         ],
     },
     "C06": {
